@@ -281,8 +281,15 @@ def _splat(fn: ast.AST) -> int:
             pure = all(_is_pure(x) for x in vals)
             adjacent = len(splats) == 1 and j < len(body) and any(splats[0][0] is n_ for n_ in ast.walk(body[j])) and \
                 isinstance(body[j], (ast.Assign, ast.Expr, ast.Return, ast.AnnAssign)) and body[j].value is splats[0][0]
+            hoist_needed = False
             if adjacent:
                 pass      # created and consumed back to back: nothing can change in between
+            elif not pure or any(isinstance(n_, ast.Attribute) and ast.unparse(n_) in _attr_stores(fn) for x in vals for n_ in ast.walk(x)) or \
+                    any(st_.lineno > s.lineno for n_ in (set().union(*[_free(x) for x in vals]) if vals else set())
+                        for st_ in stores.get(n_, []) if hasattr(st_, "lineno")):
+                # the values are evaluated once, where the dict / tuple is built: keep that by binding each value that
+                # is not a plain never-reassigned name to a temporary there, then pass the temporaries
+                hoist_needed = True
             elif pure:
                 # the values may be re-evaluated at each call: what they read must never change after the creation
                 fr = set().union(*[_free(x) for x in vals]) if vals else set()
@@ -301,6 +308,27 @@ def _splat(fn: ast.AST) -> int:
                 first = host.value if isinstance(host, (ast.Assign, ast.Expr, ast.Return, ast.AnnAssign)) else None
                 if first is not call_:
                     continue
+            if hoist_needed:
+                taken_ = {n_.id for n_ in ast.walk(fn) if isinstance(n_, ast.Name)}
+                pre_ = []
+                def _tmp(label, val):
+                    if isinstance(val, ast.Constant) or (isinstance(val, ast.Name) and len(stores.get(val.id, [])) <= 1
+                                                         and not any(getattr(st_, "lineno", 0) > s.lineno for st_ in stores.get(val.id, []))):
+                        return val
+                    nm_ = f"{nm}__{label}"
+                    while nm_ in taken_:
+                        nm_ += "_"
+                    taken_.add(nm_)
+                    a_ = ast.copy_location(ast.Assign(targets=[ast.Name(id=nm_, ctx=ast.Store())], value=val), s)
+                    ast.fix_missing_locations(a_)
+                    pre_.append(a_)
+                    return ast.Name(id=nm_, ctx=ast.Load())
+                if kind == "dict":
+                    kws = [(a, _tmp(a, b)) for a, b in kws]
+                else:
+                    elts = [_tmp(str(i_), e_) if not isinstance(e_, ast.Starred) else e_ for i_, e_ in enumerate(elts)]
+                pos_ = body.index(s)
+                body[pos_:pos_] = pre_
             for c, where in splats:
                 if kind == "dict":
                     idx = c.keywords.index(where)
@@ -556,10 +584,21 @@ class _Numpy(ast.NodeTransformer):
     def __init__(self):
         self.k = 0
 
+    def visit_Attribute(self, a: ast.Attribute):
+        self.generic_visit(a)
+        if isinstance(a.value, ast.Name) and a.value.id == "math" and a.attr in ("inf", "pi", "e", "nan") and isinstance(a.ctx, ast.Load):
+            self.k += 1
+            return ast.copy_location(ast.Attribute(value=ast.Name(id="np", ctx=ast.Load()), attr=a.attr, ctx=ast.Load()), a)
+        return a
+
     def visit_Call(self, c: ast.Call):
         self.generic_visit(c)
         f = c.func
         r = None
+        if isinstance(f, ast.Name) and f.id == "float" and len(c.args) == 1 and isinstance(c.args[0], ast.Constant) and \
+                str(c.args[0].value).lower() in ("inf", "+inf", "infinity"):
+            self.k += 1
+            return ast.copy_location(ast.Attribute(value=ast.Name(id="np", ctx=ast.Load()), attr="inf", ctx=ast.Load()), c)
         if isinstance(f, ast.Attribute) and f.attr in ("max", "min") and not c.args and not c.keywords \
                 and not (isinstance(f.value, ast.Name) and f.value.id in ("np", "numpy", "math")):
             r = ast.Call(func=ast.Attribute(value=ast.Name(id="np", ctx=ast.Load()), attr=f.attr, ctx=ast.Load()), args=[f.value], keywords=[])
@@ -708,10 +747,14 @@ def _module_constants(tree: ast.Module) -> int:
     for fn in [n for n in ast.walk(tree) if isinstance(n, (ast.FunctionDef, ast.AsyncFunctionDef))]:
         local = set(_stores(fn)) | {a.arg for a in fn.args.posonlyargs + fn.args.args + fn.args.kwonlyargs}
         m = {k_: v for k_, v in consts.items() if k_ not in local}
-        if not m:
-            continue
         for n in list(_own_nodes(fn)):
             pass
+        # default values are evaluated in the module scope
+        for lst in (fn.args.defaults, fn.args.kw_defaults):
+            for i_, d_ in enumerate(lst):
+                if isinstance(d_, ast.Name) and d_.id in consts:
+                    lst[i_] = ast.copy_location(copy.deepcopy(consts[d_.id]), d_)
+                    k += 1
         before = sum(1 for n in _own_nodes(fn) if isinstance(n, ast.Name) and n.id in m and isinstance(n.ctx, ast.Load))
         if before:
             # do not descend into nested functions that shadow the name: _Subst skips nested defs, they are visited on their own
@@ -719,6 +762,368 @@ def _module_constants(tree: ast.Module) -> int:
                 fn.body = [_Subst(m).visit(b_) for b_ in fn.body]
             ast.fix_missing_locations(fn)
             k += before
+    return k
+
+
+# ---------------------------------------------------------------------------------------------- T20
+def _dict_attributes(tree: ast.Module) -> int:
+    """self.A = {"k1": v1, "k2": v2}  (only assignment of A in the class; A only ever read as self.A["<const>"])
+         ->  self.A__k1 = v1; self.A__k2 = v2   and   self.A["k1"]  ->  self.A__k1"""
+    k = 0
+    for cls in [n for n in tree.body if isinstance(n, ast.ClassDef)]:
+        stores, loads = {}, {}
+        parents = {id(c): p for p in ast.walk(cls) for c in ast.iter_child_nodes(p)}
+        for n in ast.walk(cls):
+            if isinstance(n, ast.Attribute) and isinstance(n.value, ast.Name) and n.value.id == "self":
+                (stores if isinstance(n.ctx, (ast.Store, ast.Del)) else loads).setdefault(n.attr, []).append(n)
+        for attr, sts in stores.items():
+            if len(sts) != 1:
+                continue
+            asg = parents.get(id(sts[0]))
+            if not (isinstance(asg, ast.Assign) and len(asg.targets) == 1 and isinstance(asg.value, ast.Dict) and asg.value.keys
+                    and all(isinstance(kk, ast.Constant) and isinstance(kk.value, str) and kk.value.isidentifier() for kk in asg.value.keys)):
+                continue
+            keys = [kk.value for kk in asg.value.keys]
+            uses = loads.get(attr, [])
+            ok = bool(uses)
+            for u in uses:
+                par = parents.get(id(u))
+                if not (isinstance(par, ast.Subscript) and par.value is u and isinstance(par.slice, ast.Constant) and par.slice.value in keys
+                        and isinstance(par.ctx, ast.Load)):
+                    ok = False
+            if not ok or any(f"{attr}__{kk}" in stores or f"{attr}__{kk}" in loads for kk in keys):
+                continue
+            # rewrite the uses
+            class R(ast.NodeTransformer):
+                def visit_Subscript(self, n):
+                    self.generic_visit(n)
+                    if isinstance(n.value, ast.Attribute) and isinstance(n.value.value, ast.Name) and n.value.value.id == "self" \
+                            and n.value.attr == attr and isinstance(n.slice, ast.Constant):
+                        return ast.copy_location(ast.Attribute(value=n.value.value, attr=f"{attr}__{n.slice.value}", ctx=ast.Load()), n)
+                    return n
+            R().visit(cls)
+            # rewrite the assignment
+            for body in [b for f_ in ast.walk(cls) if isinstance(f_, ast.FunctionDef) for b in _bodies(f_)]:
+                if asg in body:
+                    i = body.index(asg)
+                    new = [ast.copy_location(ast.Assign(targets=[ast.Attribute(value=ast.Name(id="self", ctx=ast.Load()), attr=f"{attr}__{kk.value}", ctx=ast.Store())],
+                                                        value=vv), asg) for kk, vv in zip(asg.value.keys, asg.value.values)]
+                    for n_ in new:
+                        ast.fix_missing_locations(n_)
+                    body[i:i + 1] = new
+                    k += 1
+                    break
+            ast.fix_missing_locations(cls)
+    return k
+
+
+# ---------------------------------------------------------------------------------------------- T19
+def _namedtuples(tree: ast.Module) -> Dict[str, dict]:
+    """module-level `class X(NamedTuple)`: field order, @property bodies and one-expression methods"""
+    out = {}
+    for c in tree.body:
+        if isinstance(c, ast.ClassDef) and any((isinstance(b, ast.Name) and b.id == "NamedTuple") or
+                                              (isinstance(b, ast.Attribute) and b.attr == "NamedTuple") for b in c.bases):
+            fields, props, meths, ok = [], {}, {}, True
+            for st in c.body:
+                if isinstance(st, ast.AnnAssign) and isinstance(st.target, ast.Name):
+                    fields.append((st.target.id, st.value))
+                elif isinstance(st, ast.Expr) and isinstance(st.value, ast.Constant):
+                    continue
+                elif isinstance(st, ast.FunctionDef):
+                    body = [b for b in st.body if not (isinstance(b, ast.Expr) and isinstance(b.value, ast.Constant))]
+                    is_prop = any(isinstance(d, ast.Name) and d.id == "property" for d in st.decorator_list)
+                    if len(body) == 1 and isinstance(body[0], ast.Return) and body[0].value is not None and st.args.args and st.args.args[0].arg == "self" \
+                            and (is_prop or not st.decorator_list) and not st.args.vararg and not st.args.kwarg:
+                        (props if is_prop else meths)[st.name] = (st, body[0].value)
+                    else:
+                        ok = ok and any(isinstance(d, ast.Name) and d.id in ("classmethod", "staticmethod") for d in st.decorator_list)
+                else:
+                    ok = False
+            if fields and ok:
+                out[c.name] = {"fields": fields, "props": props, "meths": meths}
+    return out
+
+
+def _sroa(fn: ast.AST, nts: Dict[str, dict]) -> int:
+    """locals that only ever hold a NamedTuple X built in this function (X(..), v._replace(..), copies of such locals) are
+    replaced by one local per field; v.field / v.prop / v.meth(..) / *v / `a, b = v` are rewritten accordingly"""
+    if not nts:
+        return 0
+    stores = _stores(fn)
+    assigns: Dict[str, List[ast.stmt]] = {}
+    for n in _own_nodes(fn):
+        if isinstance(n, (ast.Assign, ast.AnnAssign)) and getattr(n, "value", None) is not None:
+            t = n.targets[0] if isinstance(n, ast.Assign) and len(n.targets) == 1 else getattr(n, "target", None)
+            if isinstance(t, ast.Name):
+                assigns.setdefault(t.id, []).append(n)
+    a = fn.args if isinstance(fn, (ast.FunctionDef, ast.AsyncFunctionDef)) else None
+    params = {p.arg for p in (a.posonlyargs + a.args + a.kwonlyargs)} if a else set()
+
+    def ctor_of(v) -> Optional[str]:
+        if isinstance(v, ast.Call) and isinstance(v.func, ast.Name) and v.func.id in nts and not any(isinstance(x, ast.Starred) for x in v.args) \
+                and all(k.arg for k in v.keywords):
+            return v.func.id
+        return None
+    # candidate variables and their type, to a fixpoint over copies / _replace
+    typ: Dict[str, str] = {}
+    changed = True
+    while changed:
+        changed = False
+        for nm, sts in assigns.items():
+            if nm in typ or nm in params or len(sts) != len(stores.get(nm, [])):
+                continue
+            kinds = set()
+            for st in sts:
+                v = st.value
+                c = ctor_of(v)
+                if c:
+                    kinds.add(c)
+                elif isinstance(v, ast.Name) and v.id in typ:
+                    kinds.add(typ[v.id])
+                elif isinstance(v, ast.Call) and isinstance(v.func, ast.Attribute) and v.func.attr == "_replace" and isinstance(v.func.value, ast.Name) \
+                        and (v.func.value.id in typ or v.func.value.id == nm) and not v.args and all(k.arg for k in v.keywords):
+                    kinds.add(typ.get(v.func.value.id, "?self"))
+                else:
+                    kinds.add("?")
+            kinds.discard("?self")
+            if len(kinds) == 1 and "?" not in kinds:
+                typ[nm] = next(iter(kinds))
+                changed = True
+    if not typ:
+        return 0
+    # every load of a candidate must be one of the supported forms
+    parent: Dict[int, ast.AST] = {}
+    for p_ in ast.walk(fn):
+        for ch in ast.iter_child_nodes(p_):
+            parent[id(ch)] = p_
+    bad: Set[str] = set()
+    for n in ast.walk(fn):
+        if isinstance(n, ast.Name) and n.id in typ and isinstance(n.ctx, ast.Load):
+            par = parent.get(id(n))
+            info = nts[typ[n.id]]
+            fnames = [f for f, _ in info["fields"]]
+            if isinstance(par, ast.Attribute) and par.value is n:
+                if par.attr in fnames or par.attr in info["props"]:
+                    continue
+                gp = parent.get(id(par))
+                if isinstance(gp, ast.Call) and gp.func is par and (par.attr in info["meths"] or par.attr == "_replace"):
+                    continue
+            if isinstance(par, ast.Starred):
+                continue
+            if isinstance(par, (ast.Assign, ast.AnnAssign)) and par.value is n:
+                t = par.targets[0] if isinstance(par, ast.Assign) else par.target
+                if isinstance(t, ast.Name) and t.id in typ:
+                    continue
+                if isinstance(t, (ast.Tuple, ast.List)) and len(t.elts) == len(fnames) and not any(isinstance(e, ast.Starred) for e in t.elts):
+                    continue
+            bad.add(n.id)
+    # nested functions reading the variable: not handled
+    for n in ast.walk(fn):
+        if isinstance(n, (ast.FunctionDef, ast.Lambda)) and n is not fn:
+            for x in ast.walk(n):
+                if isinstance(x, ast.Name) and x.id in typ:
+                    bad.add(x.id)
+    # copies must stay within the surviving set
+    changed = True
+    while changed:
+        changed = False
+        for nm in list(typ):
+            if nm in bad:
+                continue
+            for st in assigns[nm]:
+                v = st.value
+                src_nm = v.id if isinstance(v, ast.Name) else v.func.value.id if (isinstance(v, ast.Call) and isinstance(v.func, ast.Attribute)
+                                                                                 and isinstance(v.func.value, ast.Name)) else None
+                if src_nm is not None and src_nm in bad:
+                    bad.add(nm)
+                    changed = True
+    typ = {k: v for k, v in typ.items() if k not in bad}
+    if not typ:
+        return 0
+    taken = {n.id for n in ast.walk(fn) if isinstance(n, ast.Name)}
+
+    def fld(v: str, f: str) -> str:
+        return f"{v}__{f}"
+    if any(fld(v, f) in taken for v in typ for f, _ in nts[typ[v]]["fields"]):
+        return 0
+
+    def field_values(v: ast.expr, cur_name: Optional[str]) -> Optional[List[ast.expr]]:
+        """the expressions of the fields, in order, of a constructor call / copy / _replace"""
+        c = ctor_of(v)
+        if c:
+            fs = nts[c]["fields"]
+            vals: Dict[str, ast.expr] = {}
+            for (f, dflt), a_ in zip(fs, v.args):
+                vals[f] = a_
+            for k in v.keywords:
+                vals[k.arg] = k.value
+            out = []
+            for f, dflt in fs:
+                if f not in vals:
+                    if dflt is None:
+                        return None
+                    vals[f] = dflt
+                out.append(vals[f])
+            return out
+        if isinstance(v, ast.Name) and v.id in typ:
+            return [ast.Name(id=fld(v.id, f), ctx=ast.Load()) for f, _ in nts[typ[v.id]]["fields"]]
+        if isinstance(v, ast.Call) and isinstance(v.func, ast.Attribute) and v.func.attr == "_replace" and isinstance(v.func.value, ast.Name) \
+                and v.func.value.id in typ:
+            base = v.func.value.id
+            rep = {k.arg: k.value for k in v.keywords}
+            return [rep.get(f, ast.Name(id=fld(base, f), ctx=ast.Load())) for f, _ in nts[typ[base]]["fields"]]
+        return None
+
+    class R(ast.NodeTransformer):
+        def visit_FunctionDef(self, n):
+            if n is fn:
+                self.generic_visit(n)
+            return n
+
+        def visit_Attribute(self, a_):
+            if isinstance(a_.value, ast.Name) and a_.value.id in typ and isinstance(a_.ctx, ast.Load):
+                info = nts[typ[a_.value.id]]
+                v = a_.value.id
+                if a_.attr in [f for f, _ in info["fields"]]:
+                    return ast.copy_location(ast.Name(id=fld(v, a_.attr), ctx=ast.Load()), a_)
+                if a_.attr in info["props"]:
+                    body = copy.deepcopy(info["props"][a_.attr][1])
+                    return ast.copy_location(_SelfSubst(v, [f for f, _ in info["fields"]], fld).visit(body), a_)
+            return self.generic_visit(a_)
+
+        def visit_Call(self, c):
+            f = c.func
+            if isinstance(f, ast.Attribute) and isinstance(f.value, ast.Name) and f.value.id in typ and f.attr in nts[typ[f.value.id]]["meths"]:
+                info = nts[typ[f.value.id]]
+                mdef, body = info["meths"][f.attr]
+                ps = [p.arg for p in mdef.args.args[1:]]
+                if len(c.args) <= len(ps) and all(k.arg in ps for k in c.keywords):
+                    m = dict(zip(ps, c.args))
+                    m.update({k.arg: k.value for k in c.keywords})
+                    dflts = dict(zip(ps[len(ps) - len(mdef.args.defaults):], mdef.args.defaults))
+                    for p_ in ps:
+                        m.setdefault(p_, dflts.get(p_))
+                    if all(v is not None for v in m.values()):
+                        e = _SelfSubst(f.value.id, [x for x, _ in info["fields"]], fld).visit(copy.deepcopy(body))
+                        e = _Subst({k: self.visit(v) for k, v in m.items()}).visit(e)
+                        return ast.copy_location(e, c)
+            c = self.generic_visit(c)
+            new_args = []
+            for a_ in c.args:
+                if isinstance(a_, ast.Starred) and isinstance(a_.value, ast.Name) and a_.value.id in typ:
+                    new_args += [ast.Name(id=fld(a_.value.id, f_), ctx=ast.Load()) for f_, _ in nts[typ[a_.value.id]]["fields"]]
+                else:
+                    new_args.append(a_)
+            c.args = new_args
+            return c
+    k = 0
+    for body in _bodies(fn):
+        i = 0
+        while i < len(body):
+            st = body[i]
+            if isinstance(st, (ast.Assign, ast.AnnAssign)) and getattr(st, "value", None) is not None:
+                t = st.targets[0] if isinstance(st, ast.Assign) and len(st.targets) == 1 else getattr(st, "target", None)
+                if isinstance(t, ast.Name) and t.id in typ:
+                    vals = field_values(st.value, t.id)
+                    if vals is None:
+                        return 0      # cannot happen after the checks above; leave the tree consistent by giving up early
+                    fs = [f for f, _ in nts[typ[t.id]]["fields"]]
+                    vals = [R().visit(copy.deepcopy(v)) for v in vals]
+                    tgt = ast.Tuple(elts=[ast.Name(id=fld(t.id, f), ctx=ast.Store()) for f in fs], ctx=ast.Store())
+                    new = ast.copy_location(ast.Assign(targets=[tgt], value=ast.Tuple(elts=vals, ctx=ast.Load())), st)
+                    ast.fix_missing_locations(new)
+                    body[i] = new
+                    k += 1
+                    i += 1
+                    continue
+                if isinstance(t, (ast.Tuple, ast.List)) and isinstance(st.value, ast.Name) and st.value.id in typ:
+                    vals = field_values(st.value, None)
+                    new = ast.copy_location(ast.Assign(targets=[t], value=ast.Tuple(elts=vals, ctx=ast.Load())), st)
+                    ast.fix_missing_locations(new)
+                    body[i] = new
+                    i += 1
+                    continue
+            body[i] = R().visit(st)
+            ast.fix_missing_locations(body[i])
+            i += 1
+    return k
+
+
+class _SelfSubst(ast.NodeTransformer):
+    def __init__(self, var: str, fields: List[str], fld):
+        self.var, self.fields, self.fld = var, fields, fld
+
+    def visit_Attribute(self, a_):
+        if isinstance(a_.value, ast.Name) and a_.value.id == "self" and a_.attr in self.fields:
+            return ast.copy_location(ast.Name(id=self.fld(self.var, a_.attr), ctx=ast.Load()), a_)
+        return self.generic_visit(a_)
+
+
+class _CtorField(ast.NodeTransformer):
+    """X(a, b).field -> the argument;  X(a, b).prop -> the property body on the arguments"""
+
+    def __init__(self, nts):
+        self.nts, self.k = nts, 0
+
+    def visit_Attribute(self, a_):
+        self.generic_visit(a_)
+        v = a_.value
+        if isinstance(v, ast.Call) and isinstance(v.func, ast.Name) and v.func.id in self.nts and isinstance(a_.ctx, ast.Load) \
+                and not any(isinstance(x, ast.Starred) for x in v.args) and all(k.arg for k in v.keywords):
+            info = self.nts[v.func.id]
+            fs = [f for f, _ in info["fields"]]
+            vals = dict(zip(fs, v.args))
+            vals.update({k.arg: k.value for k in v.keywords})
+            if all(f in vals for f in fs) and all(_is_pure(x) or True for x in vals.values()):
+                if a_.attr in fs and all(_is_pure(vals[f]) for f in fs if f != a_.attr):
+                    self.k += 1
+                    return vals[a_.attr]
+                if a_.attr in info["props"] and all(_is_pure(x) for x in vals.values()):
+                    body = copy.deepcopy(info["props"][a_.attr][1])
+
+                    class S(ast.NodeTransformer):
+                        def visit_Attribute(s_, x):
+                            if isinstance(x.value, ast.Name) and x.value.id == "self" and x.attr in vals:
+                                return copy.deepcopy(vals[x.attr])
+                            return s_.generic_visit(x)
+                    self.k += 1
+                    return ast.copy_location(S().visit(body), a_)
+        return a_
+
+
+# ---------------------------------------------------------------------------------------------- T18
+def _tuple_alias(fn: ast.AST) -> int:
+    """t = f(..) ; a, b = t      ->   a, b = f(..)   and every later read of t becomes (a, b)
+    (t, a, b bound once in the function: the tuple and its unpacked names denote the same values for good)"""
+    k = 0
+    stores = _stores(fn)
+    for body in _bodies(fn):
+        i = 0
+        while i + 1 < len(body):
+            s1, s2 = body[i], body[i + 1]
+            if isinstance(s1, (ast.Assign, ast.AnnAssign)) and getattr(s1, "value", None) is not None and isinstance(s1.value, ast.Call) \
+                    and isinstance(s2, ast.Assign) and len(s2.targets) == 1 and isinstance(s2.targets[0], ast.Tuple) \
+                    and isinstance(s2.value, ast.Name):
+                t1 = s1.targets[0] if isinstance(s1, ast.Assign) and len(s1.targets) == 1 else getattr(s1, "target", None)
+                names = [e.id for e in s2.targets[0].elts if isinstance(e, ast.Name)]
+                if isinstance(t1, ast.Name) and s2.value.id == t1.id and len(names) == len(s2.targets[0].elts) \
+                        and len(stores.get(t1.id, [])) == 1 and all(len(stores.get(n, [])) == 1 for n in names) \
+                        and not any(isinstance(x, (ast.FunctionDef, ast.Lambda)) and any(isinstance(y, ast.Name) and y.id == t1.id for y in ast.walk(x))
+                                    for x in ast.walk(fn) if x is not fn):
+                    new = ast.copy_location(ast.Assign(targets=[s2.targets[0]], value=s1.value), s1)
+                    ast.fix_missing_locations(new)
+                    body[i:i + 2] = [new]
+                    tup = ast.Tuple(elts=[ast.Name(id=n, ctx=ast.Load()) for n in names], ctx=ast.Load())
+                    for b_ in _bodies(fn):
+                        for j_, st_ in enumerate(b_):
+                            if st_ is new:
+                                continue
+                            b_[j_] = _Subst({t1.id: tup}).visit(st_)
+                    ast.fix_missing_locations(fn)
+                    k += 1
+                    continue
+            i += 1
     return k
 
 
@@ -827,6 +1232,15 @@ def normalise(tree: ast.Module, modname: str = "") -> Dict[str, int]:
     stats["T9 numpy spelling"] = nv.k
     ast.fix_missing_locations(tree)
     stats["T12 read-only attribute alias"] = sum(_attr_aliases(fn, modname) for fn in fns)
+    stats["T20 dict-valued attributes"] = _dict_attributes(tree)
+    nts = _namedtuples(tree)
+    stats["T19 NamedTuple locals"] = sum(_sroa(fn, nts) for fn in fns)
+    if nts:
+        cf = _CtorField(nts)
+        cf.visit(tree)
+        stats["T19 NamedTuple locals"] += cf.k
+        ast.fix_missing_locations(tree)
+    stats["T18 tuple alias"] = sum(_tuple_alias(fn) for fn in fns)
     stats["T17 counter increments"] = sum(_counter_increments(fn) for fn in fns)
     stats["T16 closure roles"] = _closure_roles(tree, modname)
     stats["T15 module constants"] = _module_constants(tree)
